@@ -311,7 +311,24 @@ def c05Field (f : Field) (attrs : List (String × TfVal)) (res : GoVal) : Bool :
         | .object, .obj _ _ as _ =>
           let isEmpty := (isEmptyMsg msg)
           if isEmpty then true else c05Fields sub (as.getD []) (structOf x)
+        -- elements of known lists / maps: a null or unknown element leaves a zero / nil element, known message elements are visited
+        | .primitiveList, .list _ _ es _ =>
+          ((es.getD []).zip (sliceElems x)).all fun (e, y) => isKnownNonNull e || goIsZeroish y
+        | .primitiveMap, .map _ _ es _ =>
+          (es.getD []).all fun (k, e) => isKnownNonNull e || (match (mapElems x).lookup k with | some y => goIsZeroish y | none => true)
+        | .objectList, .list _ _ es _ =>
+          ((es.getD []).zip (sliceElems x)).all fun (e, y) => c05Elem info msg sub e y
+        | .objectMap, .map _ _ es _ =>
+          (es.getD []).all fun (k, e) => match (mapElems x).lookup k with | some y => c05Elem info msg sub e y | none => !isKnownNonNull e
         | _, _ => true
+
+/-- one message element of a list / map: null or unknown ⇒ nil (pointer elements) or the zero struct; known ⇒ its fields are visited -/
+def c05Elem (info : FieldInfo) (msg : Option MsgInfo) (sub : List Field) (e : TfVal) (y : GoVal) : Bool :=
+  if !isKnownNonNull e then (if info.isNullable then isNilPtr y else goIsZeroish (structOf y))
+  else
+    match e with
+    | .obj _ _ as _ => if isEmptyMsg msg then true else c05Fields sub (as.getD []) (structOf y)
+    | _ => true
 end
 
 def c05Check (m : Msg) (tf : TfVal) (panicked : Bool) (diags : List Diag) (res : GoVal) : Bool :=
